@@ -168,6 +168,34 @@ def run(ctx) -> None:
                 ctx.case(f"vr|time|{'lo-none' if lo is None else 'lo'}|{'hi-none' if hi is None else 'hi'}|{si}{ei}|{cname}")
     ctx.exhaustive.append("valid_range_test: all spans lo<=hi over grid+None x 4 inclusivity settings x 11 carriers")
 
+    # ---- integers beyond 2**53 (float64 cannot tell neighbours apart) and datetimes outside the datetime64[ns] range
+    if ctx.shard == 0:
+        for b in (1_700_000_000_000_000_000, -(2 ** 62) + 5, 2 ** 53 + 1):
+            ivals = [b - 2, b - 1, b, b + 1, b + 2]
+            for lo, hi in ((b - 1, b), (b, b), (b - 1, b + 1), (None, b), (b, None)):
+                for si, ei in incl:
+                    kw = dict(inp=np.array(ivals, dtype=np.int64), valid_span=(lo, hi), start_inclusive=si, end_inclusive=ei)
+                    if lo is None or hi is None:
+                        continue  # int dtype with a None bound is outside the claimed domain
+                    client.expect(ctx, "C03", "axds.valid_range_test", kw, lambda: models.valid_range(ivals, lo, hi, si, ei),
+                                  logical={"values": ivals, "valid_span": [lo, hi], "si": si, "ei": ei, "carrier": "int64-large"},
+                                  hist="valid_range")
+                    ctx.count("valid_range.calls")
+                    ctx.case(f"vr|int64-large|{si}{ei}|{'deg' if lo == hi else 'ord'}")
+        for unit, start, step, k in (("s", "2262-04-11T23:40:00", 300, 8), ("ms", "2262-01-01T00:00:00", 86400 * 30, 14),
+                                     ("D", "1650-01-01", 86400 * 3650, 8), ("s", "2500-01-01T00:00:00", 3600, 6)):
+            t0_ = np.datetime64(start, "s")
+            secs_ = [int(i * step) for i in range(k)]
+            arr_ = (t0_ + np.array(secs_, dtype="timedelta64[s]")).astype(f"datetime64[{unit}]")
+            for a_, b_ in ((1, k - 2), (2, 2), (0, k - 1)):
+                for si, ei in incl:
+                    kw = dict(inp=arr_, valid_span=(arr_[a_], arr_[b_]), start_inclusive=si, end_inclusive=ei)
+                    client.expect(ctx, "C03", "axds.valid_range_test", kw,
+                                  lambda: models.valid_range(secs_, secs_[a_], secs_[b_], si, ei),
+                                  logical={"times": [str(v) for v in arr_], "valid_span": [str(arr_[a_]), str(arr_[b_])], "si": si,
+                                           "ei": ei, "carrier": f"datetime64[{unit}] outside the ns range"}, hist="valid_range")
+                    ctx.count("valid_range.calls")
+                    ctx.case(f"vr|far-dates|{unit}|{si}{ei}")
     # ---- float32 series against bounds float32 cannot represent: the comparison must be made on the widened values
     if ctx.shard == 0:
         import math
